@@ -121,6 +121,18 @@ def run_check(mod, pid, tier, seed, t0, skip_lean=False):
                     broken.append({"kind": "leanchecker", "name": ",".join(modules), "message": txt[-300:]})
     # ---- Tie B: correspondence + property oracle on the implementation
     violations = []   # list of C.Violation
+    # corpus first: minimised past failures and the regression inputs of every recorded finding
+    cdir = os.path.join(C.VERIF, "corpus", pid)
+    if os.path.isdir(cdir):
+        for fn in sorted(os.listdir(cdir)):
+            if not fn.endswith(".json"):
+                continue
+            case = json.load(open(os.path.join(cdir, fn)))["case"]
+            ok, detail = mod.oracle(case)
+            ctx.stats.count("corpus")
+            if not ok:
+                violations.append(C.Violation(pid, f"corpus case {fn} fails", {"property": pid, "case": case, "oracle": detail,
+                                              "corpus": fn}, key=mod.key(case) if hasattr(mod, "key") else None))
     try:
         mismatches = mod.correspond(ctx) or []
     except C.DriverError as ex:
